@@ -447,6 +447,7 @@ impl Gen<'_> {
             } else {
                 let nf = self.r.range(0, 6);
                 let mut fnames: Vec<String> = Vec::new();
+                let mut fwords: Vec<String> = Vec::new();
                 let mut shorts: Vec<char> = if self.help_names { vec![] } else { vec!['h'] };
                 let mut longs: Vec<String> = if self.help_names { vec![] } else { vec!["help".to_string()] };
                 let mut vnames: Vec<String> = Vec::new();
@@ -466,9 +467,12 @@ impl Gen<'_> {
                     } else {
                         (ws.join("_"), ws.join("-"))
                     };
-                    if fnames.contains(&fname) {
+                    // (two identifiers with the same words - `quiet` and `_quiet` - would collide in the names the macros derive
+                    // from them; a user gets a compile error there)
+                    if fnames.contains(&fname) || fwords.contains(&lname) {
                         continue;
                     }
+                    fwords.push(lname.clone());
                     let ty = self.r.pick(&TYPES).to_string();
                     let mut f = FieldM {
                         name: fname.clone(),
